@@ -22,7 +22,7 @@ def obligations():
                             stubs=['ec_enc_icdf/ec_dec_icdf: tape coder']))
     L.append(Ob('H2.gen_toc', 'C02_toc.c', ['src/opus.c', 'src/opus_decoder.c'], [], unwind=1, unwindset=['gen_toc:9'], functions=['gen_toc', 'opus_packet_get_bandwidth'], budget=300,
                 bounds='every legal (mode, duration 2.5..60 ms, bandwidth, channels, Fs) combination'))
-    for fsi, dur in [(0, 6), (4, 3), (2, 8), (1, 5)]:
+    for fsi, dur in [(0, 6), (4, 3)]:
         L.append(_g.glue_ob(Ob, 'H3.glue', fsi, dur, 'quick'))
     for fsi, dur in [(f, d) for f in range(5) for d in range(9) if (f, d) not in [(0, 6), (4, 3), (2, 8), (1, 5)]][::4]:
         L.append(_g.glue_ob(Ob, 'H3.glue', fsi, dur, 'thorough'))
